@@ -20,6 +20,7 @@ from typing import Dict, List, Optional, Set, Tuple
 
 from sa.cfg import CFG
 from sa.model import AnalysisError, Function, Repo, calls_in, const_str, dotted, enclosing_stmt, norm, own_nodes, parent
+from sa.match import Locals, names_in, truthiness
 from sa.report import Report
 from sa.resolve import Resolver
 from sa.settypes import DICT_OF_SET, OTHER, SEQ_FROM_SET, SET, SetTypes
@@ -140,47 +141,71 @@ def run(repo: Repo, rep: Report, tier: str) -> None:
     # ---------------------------------------------------------------- R9.4 / R9.5 diff completeness
     sd = repo.func("generator.client_generator:ClientGenerator._show_diffs")
     cfg = CFG(sd.node)
-    tests = [n for n in cfg.nodes if n.kind == "test" and isinstance(n.ast, ast.Call) and isinstance(n.ast.func, ast.Attribute) and n.ast.func.attr == "exists"]
-    rep.require(len(tests) >= 1, "R9.4: _show_diffs no longer tests old_file.exists() (anchor)")
+    SL = Locals(sd.node)
+    sparams = [p for p in SL.params if p != "self"]
+    if len(sparams) < 2:
+        raise AnalysisError("anchor vanished: _show_diffs(old_dir, new_dir) signature")
+    p_old, p_new = sparams[0], sparams[1]
+
+    def _exists_call(x: ast.AST) -> bool:
+        return isinstance(x, ast.Call) and ((isinstance(x.func, ast.Attribute) and x.func.attr in ("exists", "is_file")) or (dotted(x.func) or "") in (
+            "os.path.exists", "os.path.isfile"))
+
+    tests = [n for n in cfg.nodes if n.kind == "test" and any(_exists_call(x) for x in ast.walk(n.ast))]
+    rep.require(len(tests) >= 1, "R9.4: _show_diffs no longer tests whether the existing counterpart of a generated file exists (anchor)")
     flagvars = {norm(r.value) for r in own_nodes(sd.node) if isinstance(r, ast.Return) and r.value is not None}
+    hdr = {n.id for n in cfg.nodes if n.kind == "iter"}
+
+    def _sets_flag_after(m: int) -> bool:
+        for nid in {m} | cfg.reachable_from_without(m, hdr):
+            a = cfg.nodes[nid].ast
+            if isinstance(a, ast.Assign) and norm(a.targets[0]) in flagvars and isinstance(a.value, ast.Constant) and a.value.value is True:
+                return True
+            if isinstance(a, ast.Return) and isinstance(a.value, ast.Constant) and a.value.value is True:
+                return True
+        return False
+
     for t in tests:
-        false_succ = [m for m, lab in cfg.succ[t.id] if lab == "false"]
-        hdr = {n.id for n in cfg.nodes if n.kind == "iter"}
-        sets_flag = False
-        for m in false_succ:
-            for nid in cfg.reachable_from_without(m, hdr):
-                a = cfg.nodes[nid].ast
-                if isinstance(a, ast.Assign) and norm(a.targets[0]) in flagvars and isinstance(a.value, ast.Constant) and a.value.value is True:
-                    sets_flag = True
-            if m in hdr:
-                pass
-        sub = f"{sd.module.relpath}:_show_diffs missing counterpart (`{norm(t.ast)}` false)"
+        tv = truthiness(t.ast)
+        exists_sense = True if tv is None else tv[1]  # `x.exists()` true-branch = exists; `not x.exists()` true-branch = missing
+        missing_lab = "false" if exists_sense else "true"
+        missing_succ = [m for m, lab in cfg.succ[t.id] if lab == missing_lab]
+        sets_flag = any(_sets_flag_after(m) for m in missing_succ)
+        sub = f"{sd.module.relpath}:_show_diffs missing counterpart"
         if sets_flag:
             rep.ok("R9.4", sub, "a newly generated file without an existing counterpart sets the difference flag", sd.loc(t.ast))
         else:
-            rep.violation("R9.4", sub, f"{sd.fq}|one-sided-ignored|{norm(t.ast)}",
+            rep.violation("R9.4", sub, f"{sd.fq}|one-sided-ignored",
                           "a file that would be generated now but is missing from the existing output is skipped: the run reports 'no differences'", sd.loc(t.ast))
-    # every content difference sets the flag
-    diffs = [n for n in cfg.nodes if n.kind == "test" and isinstance(n.ast, ast.Name) and "diff" in n.ast.id]
-    okd = False
-    for t in diffs:
-        for m, lab in cfg.succ[t.id]:
-            if lab == "true":
-                for nid in cfg.reachable_from_without(m, {n.id for n in cfg.nodes if n.kind == "iter"}):
-                    a = cfg.nodes[nid].ast
-                    if isinstance(a, ast.Assign) and norm(a.targets[0]) in flagvars and isinstance(a.value, ast.Constant) and a.value.value is True:
-                        okd = True
+    # every content difference sets the flag: the test on the computed diff (or on the inequality of the two texts)
+    diff_vars = {name for name, ds in SL.defs.items() for k, v, _ in ds if v is not None and any(
+        isinstance(c, ast.Call) and (dotted(c.func) or "").split(".")[-1] in ("unified_diff", "ndiff", "context_diff") for c in ast.walk(v))}
+    diffs = []
+    for n in cfg.nodes:
+        if n.kind != "test":
+            continue
+        tv = truthiness(n.ast)
+        if tv is not None and isinstance(tv[0], ast.Name) and SL.root(tv[0].id) in diff_vars:
+            diffs.append((n, "true" if tv[1] else "false"))
+        elif isinstance(n.ast, ast.Compare) and len(n.ast.ops) == 1 and isinstance(n.ast.ops[0], (ast.NotEq, ast.Eq)) and not any(_exists_call(x) for x in ast.walk(n.ast)) \
+                and any(isinstance(c, ast.Call) and isinstance(c.func, ast.Attribute) and c.func.attr in ("read_text", "read_bytes", "splitlines") for c in ast.walk(SL.inline(n.ast))):
+            diffs.append((n, "true" if isinstance(n.ast.ops[0], ast.NotEq) else "false"))
+    okd = any(_sets_flag_after(m) for t, lab_d in diffs for m, lab in cfg.succ[t.id] if lab == lab_d)
+    if not diffs:
+        raise AnalysisError("R9.4: cannot find where _show_diffs tests the computed difference (anchor)")
     if okd:
         rep.ok("R9.4", f"{sd.module.relpath}:_show_diffs content difference", "a non-empty unified diff sets the flag that is returned", sd.loc())
     else:
         rep.violation("R9.4", f"{sd.module.relpath}:_show_diffs content difference", f"{sd.fq}|diff-flag", "a content difference does not set the returned flag", sd.loc())
     # what is compared: all generated python files, recursively
-    globs = [c for c in calls_in(sd.node) if isinstance(c.func, ast.Attribute) and c.func.attr in ("rglob", "glob")]
-    if globs and all(c.func.attr == "rglob" and const_str(c.args[0]) == "*.py" and "new" in norm(c.func.value) for c in globs):
+    globs = [c for c in calls_in(sd.node) if isinstance(c.func, ast.Attribute) and c.func.attr in ("rglob", "glob")] + [
+        c for c in calls_in(sd.node) if (dotted(c.func) or "") in ("os.walk",)]
+    if globs and all(isinstance(c.func, ast.Attribute) and c.func.attr == "rglob" and c.args and const_str(c.args[0]) == "*.py" and p_new in names_in(SL.inline(c.func.value, stop=tuple(SL.params)))
+                     for c in globs):
         rep.ok("R9.4", f"{sd.module.relpath}:_show_diffs coverage", "walks every *.py of the newly generated tree recursively", sd.loc(globs[0]))
     else:
-        rep.violation("R9.4", f"{sd.module.relpath}:_show_diffs coverage", f"{sd.fq}|coverage|{[norm(g) for g in globs]}",
-                      "the comparison no longer walks all generated *.py files recursively", sd.loc())
+        rep.violation("R9.4", f"{sd.module.relpath}:_show_diffs coverage", f"{sd.fq}|coverage",
+                      f"the comparison no longer walks all generated *.py files recursively ({[norm(g)[:50] for g in globs]})", sd.loc())
 
     # ---------------------------------------------------------------- R9.5 / R9.6 / R9.7 on generate()
     from rules import c10
@@ -239,12 +264,18 @@ def run(repo: Repo, rep: Report, tier: str) -> None:
                       f"direct generation writes {sorted(w_direct - w_diff)} that the compare-only branch does not reproduce (and vice versa "
                       f"{sorted(w_diff - w_direct)}): an unchanged tree compares unequal", gen.loc(sw))
     # R9.6 the temp core is seeded with the real registry, read-only
+    from sa.paths import Provenance
+
+    prov9 = Provenance(gen, exclude=list(direct_body))
     seeded = False
     for s in diff_body:
         for n in ast.walk(s):
             if isinstance(n, ast.Call) and (dotted(n.func) or "") in ("shutil.copy", "shutil.copy2", "shutil.copyfile") and len(n.args) == 2:
                 src_txt, dst_txt = norm(_deref(gen, n.args[0])), norm(_deref(gen, n.args[1]))
-                if ".exception_registry.json" in src_txt and "core_dir" in src_txt and "tmp" not in src_txt and "tmp" in dst_txt and ".exception_registry.json" in dst_txt:
+                sroots, droots = prov9.roots(n.args[0]), prov9.roots(n.args[1])
+                s_tmp = ("call", "tempfile.TemporaryDirectory") in sroots or ("call", "tempfile.mkdtemp") in sroots
+                d_tmp = ("call", "tempfile.TemporaryDirectory") in droots or ("call", "tempfile.mkdtemp") in droots
+                if ".exception_registry.json" in src_txt and ("param", "project_root") in sroots and not s_tmp and d_tmp and ".exception_registry.json" in dst_txt:
                     seeded = True
                     # must precede the exceptions emitter
                     first_emit = e_diff[0][1].lineno if e_diff else 0
@@ -279,7 +310,55 @@ def _deref(fn: Function, e: ast.AST) -> ast.AST:
     return T().visit(copy.deepcopy(e))
 
 
+def _ordered_before(fn: Function, name: str, lineno: int) -> bool:
+    """Is the most recent definition/ordering event of local `name` before `lineno` one that fixes its order?
+    (`name.sort()`, `name = sorted(...)`) - straight-line approximation by source order."""
+    last: Optional[Tuple[int, bool]] = None
+    for n in own_nodes(fn.node):
+        ln = getattr(n, "lineno", 0)
+        if ln >= lineno:
+            continue
+        ev: Optional[bool] = None
+        if isinstance(n, ast.Expr) and isinstance(n.value, ast.Call) and isinstance(n.value.func, ast.Attribute) and n.value.func.attr == "sort" \
+                and isinstance(n.value.func.value, ast.Name) and n.value.func.value.id == name:
+            ev = True
+        elif isinstance(n, (ast.Assign, ast.AnnAssign)):
+            tg = n.targets[0] if isinstance(n, ast.Assign) else n.target
+            if isinstance(tg, ast.Name) and tg.id == name and n.value is not None:
+                ev = isinstance(n.value, ast.Call) and dotted(n.value.func) == "sorted"
+        if ev is not None and (last is None or ln >= last[0]):
+            last = (ln, ev)
+    return bool(last and last[1])
+
+
+def _sorted_next(node: ast.AST) -> bool:
+    """`x = <unordered>` immediately followed (next use of x in the same block) by `x = sorted(x)` / `x.sort()`."""
+    p = parent(node)
+    if not (isinstance(p, (ast.Assign, ast.AnnAssign))):
+        return False
+    tg = p.targets[0] if isinstance(p, ast.Assign) else p.target
+    if not isinstance(tg, ast.Name):
+        return False
+    blk = parent(p)
+    for field in ("body", "orelse", "finalbody"):
+        stmts = getattr(blk, field, None)
+        if isinstance(stmts, list) and p in stmts:
+            for st in stmts[stmts.index(p) + 1:]:
+                if not any(isinstance(x, ast.Name) and x.id == tg.id for x in ast.walk(st)):
+                    continue
+                if isinstance(st, ast.Expr) and isinstance(st.value, ast.Call) and isinstance(st.value.func, ast.Attribute) and st.value.func.attr == "sort" \
+                        and isinstance(st.value.func.value, ast.Name) and st.value.func.value.id == tg.id:
+                    return True
+                if isinstance(st, ast.Assign) and isinstance(st.targets[0], ast.Name) and st.targets[0].id == tg.id and isinstance(st.value, ast.Call) \
+                        and dotted(st.value.func) == "sorted" and st.value.args and isinstance(st.value.args[0], ast.Name) and st.value.args[0].id == tg.id:
+                    return True
+                return False
+    return False
+
+
 def _unordered_kind(st: SetTypes, fn: Function, it: ast.AST) -> Optional[str]:
+    if isinstance(it, ast.Name) and _ordered_before(fn, it.id, getattr(it, "lineno", 0)):
+        return None
     k = st.kind(fn, it)
     if k in (SET, SEQ_FROM_SET):
         return k
@@ -303,6 +382,8 @@ def _order_observable(node: ast.AST, how: str, fn: Function) -> Optional[str]:
     if how == "comprehension":
         if isinstance(node, ast.SetComp):
             return None
+        if _sorted_next(node):
+            return None
         # consumer
         if isinstance(p, ast.Call) and (dotted(p.func) in ORDER_INSENSITIVE_CONSUMERS) and node in p.args:
             return None
@@ -312,6 +393,8 @@ def _order_observable(node: ast.AST, how: str, fn: Function) -> Optional[str]:
         return f"{type(node).__name__} result is consumed by `{norm(p)[:50]}`"
     # join / list / tuple / enumerate / next ...
     if isinstance(p, ast.Call) and dotted(p.func) in ORDER_INSENSITIVE_CONSUMERS:
+        return None
+    if _sorted_next(node):
         return None
     if how in ("list", "tuple") and isinstance(p, ast.Call) and dotted(p.func) in ORDER_INSENSITIVE_CONSUMERS:
         return None
@@ -625,37 +708,20 @@ def _is_local(fn: Function, name: str) -> bool:
 # ---------------------------------------------------------------------- R9.7b
 def _idempotent_renames(repo: Repo, rep: Report) -> None:
     """Functions on the emit path that assign to IR name attributes (`op.operation_id = ...`) must follow the
-    test / loop-until-free / record pattern, so that running them twice changes nothing."""
+    test / loop-until-free / record pattern, so that running them twice changes nothing (pattern check shared with R20.2)."""
+    from rules.c20 import _dedup_site
+
     fn = repo.func("emitters.endpoints_emitter:EndpointsEmitter._deduplicate_operation_ids_globally")
-    sub = f"{fn.module.relpath}:{fn.qualname}"
     assigns = [n for n in own_nodes(fn.node) if isinstance(n, ast.Assign) and isinstance(n.targets[0], ast.Attribute) and n.targets[0].attr == "operation_id"]
     rep.require(bool(assigns), "R9.7: _deduplicate_operation_ids_globally no longer renames operation ids (anchor)")
-    seen = [n for n in own_nodes(fn.node) if isinstance(n, (ast.Assign, ast.AnnAssign)) and isinstance(getattr(n, "value", None), (ast.Dict, ast.Call, ast.Set))
-            and isinstance((n.targets[0] if isinstance(n, ast.Assign) else n.target), ast.Name) and "seen" in (n.targets[0] if isinstance(n, ast.Assign) else n.target).id]
-    seen_var = (seen[0].targets[0] if isinstance(seen[0], ast.Assign) else seen[0].target).id if seen else None  # type: ignore[union-attr]
-    whiles = [n for n in own_nodes(fn.node) if isinstance(n, ast.While) and seen_var and seen_var in norm(n.test)]
-    # the final name is recorded: an insertion into seen whose argument is (re)computed from the renamed id
-    records = []
-    for n in own_nodes(fn.node):
-        if isinstance(n, ast.Call) and isinstance(n.func, ast.Attribute) and n.func.attr == "add" and isinstance(n.func.value, ast.Name) and n.func.value.id == seen_var:
-            records.append(n)
-        if isinstance(n, ast.Assign) and isinstance(n.targets[0], ast.Subscript) and isinstance(n.targets[0].value, ast.Name) and n.targets[0].value.id == seen_var:
-            records.append(n)
-    renamed_recorded = False
-    for a in assigns:
-        cfg = CFG(fn.node)
-        an = [x.id for x in cfg.nodes if x.ast is a]
-        rn = {x.id for x in cfg.nodes if x.kind == "stmt" and x.ast is not None and any(r is x.ast or any(r is y for y in ast.walk(x.ast)) for r in records)}
-        hdr = {x.id for x in cfg.nodes if x.kind == "iter"}
-        if an and rn and cfg.must_pass(an[0], rn, hdr | {cfg.exit}) is None:
-            # and the recorded value is recomputed after the rename (not the stale pre-rename name)
-            redef = [x for x in own_nodes(fn.node) if isinstance(x, ast.Assign) and x.lineno > a.lineno and isinstance(x.targets[0], ast.Name)
-                     and any(isinstance(r, ast.Call) and r.args and norm(r.args[0]) == norm(x.targets[0]) for r in records)]
-            direct = any(isinstance(r, ast.Call) and r.args and "new" in norm(r.args[0]) for r in records)
-            renamed_recorded = bool(redef) or direct
-    if whiles and renamed_recorded:
-        rep.ok("R9.7", sub + " idempotent rename", "renames loop until the method name is unused and record the final name: a second pass changes nothing", fn.loc())
-    else:
-        rep.violation("R9.7", sub + " idempotent rename", f"{fn.fq}|rename-not-idempotent|while={bool(whiles)}|recorded={renamed_recorded}",
-                      "operation ids are renamed in place without re-testing / recording the new name: a second emit over the same IR renames again "
-                      "and two operations can end up with the same method name", fn.loc())
+
+    class _R:
+        def ok(self, rule, sub, how, loc):
+            rep.ok("R9.7", sub.replace("namespace `operation methods`", "idempotent rename"), "renames loop until the method name is unused and record the final name: a second pass changes nothing", loc)
+
+        def violation(self, rule, sub, key, how, loc):
+            rep.violation("R9.7", sub.replace("namespace `operation methods`", "idempotent rename"), key.replace("|dedup|", "|rename-not-idempotent|"),
+                          "operation ids are renamed in place without re-testing / recording the new name: a second emit over the same IR renames again "
+                          "and two operations can end up with the same method name (" + how + ")", loc)
+
+    _dedup_site(fn, "operation methods", "seen method names", _R())
